@@ -222,7 +222,16 @@ impl ReferenceProcessor<u32, (u32, usize), (u32, usize)> for NextReferenceIdProc
             return Some((START_REFERENCE_ID, missing_refs_result));
         }
 
-        Some((ref_id_result + 1, missing_refs_result))
+        match ref_id_result.checked_add(1)
+        {
+            Some(next_id) => Some((next_id, missing_refs_result)),
+            None if missing_refs_result == 0 => Some((ref_id_result, 0)),
+            None =>
+            {
+                error!("Reference ID range exhausted: the largest reference in use is {}", ref_id_result);
+                None
+            },
+        }
     }
 }
 
@@ -454,7 +463,27 @@ impl ReferenceProcessor<Arc<AtomicU32>, InsertReferencesResult, InsertReferences
 
             unwritten_content_start_pos += insert_pos - unwritten_content_start_pos;
 
-            let reference_id = next_reference_id.fetch_add(1, std::sync::atomic::Ordering::Relaxed);
+            /* Reference IDs must never wrap round: running out of them is a failure. */
+            let reference_id = match next_reference_id.fetch_update(
+                std::sync::atomic::Ordering::Relaxed,
+                std::sync::atomic::Ordering::Relaxed,
+                |id| id.checked_add(1),
+            )
+            {
+                Ok(id) => id,
+                Err(_) =>
+                {
+                    task::spawn(async {
+                        error!("Reference ID range exhausted");
+                    })
+                    .await;
+
+                    return Some(InsertReferencesResult {
+                        failure: true,
+                        num_inserted_references: 0,
+                    });
+                },
+            };
             let insertable_ref_id_string = entry.insertable_reference_string(reference_id);
 
             match scratch_file
